@@ -320,7 +320,7 @@ class ConvexPolygon(GeoBody):
         return hash(
             (
                 "ConvexPolygon",
-                round(self._get_point_hash_sum(), SIG_FIGURES),
+                round(self._get_point_hash_sum(), get_sig_figures()),
                 hash(self.plane) + hash(-self.plane),
                 hash(self.plane) * hash(-self.plane),
             )
@@ -338,7 +338,7 @@ class ConvexPolygon(GeoBody):
         return hash(
             (
                 "ConvexPolygon",
-                round(self._get_point_hash_sum(), SIG_FIGURES - 5),
+                round(self._get_point_hash_sum(), get_sig_figures() - 5),
                 hash(self.plane),
             )
         )
